@@ -477,7 +477,14 @@ func runNilDiscipline(a *Analyzer, r *Results) {
 			return
 		}
 		// R3: method call / interface invoke on the possibly-nil result of a nilable function
-		if recv.Op == "call" && nilable[recv.Name] {
+		// (a snapshot of the call's value is that value)
+		bare := func(t *Term) *Term {
+			for t.Op == "pre" && len(t.Args) == 1 {
+				t = t.Args[0]
+			}
+			return t
+		}
+		if rc := bare(recv); rc.Op == "call" && nilable[rc.Name] {
 			cc := call.Common()
 			isMethod := cc.IsInvoke() || (cc.StaticCallee() != nil && cc.StaticCallee().Signature.Recv() != nil)
 			if isMethod {
@@ -487,7 +494,7 @@ func runNilDiscipline(a *Analyzer, r *Results) {
 			}
 		}
 		// R6: method call on the pointer result of a (ptr, ok) storage getter
-		if recv.Op == "ext" && recv.Name == "0" && recv.Args[0].Op == "call" && strings.HasPrefix(recv.Args[0].Name, "interfaces.Get") {
+		if recv.Op == "ext" && recv.Name == "0" && bare(recv.Args[0]).Op == "call" && strings.HasPrefix(bare(recv.Args[0]).Name, "interfaces.Get") {
 			cc := call.Common()
 			if sc := cc.StaticCallee(); sc != nil && sc.Signature.Recv() != nil {
 				n6++
